@@ -199,7 +199,7 @@ def declare(reg):
         reg.contract(SF, name, params=collections.OrderedDict(_type=PY, data=J, root=STR, ctx=PY, ds=Comp), returns=Ref("Prov"),
                      modifies=["Prov." + f for f in fields],
                      raises={"Exception": "?not (j_is_map(data) and %s)" % " and ".join("'%s' in j_sub(data)" % f for f in ["relative_path"] + fields)},
-                     raise_frame="unchanged", ensures=ens)
+                     ensures=ens, note="on a missing key the fields already set on the NEW provider stay set (it is dropped with the exception)")
     deser("deserialize_command_output", "SerializedOutputProvider", ["rc", "cmd", "args"])
     deser("deserialize_text_provider", "SerializedOutputProvider", ["rc"])
     deser("deserialize_raw_file_provider", "SerializedRawOutputProvider", ["rc"])
